@@ -1,13 +1,41 @@
 package main
 
 import (
+	"regexp"
 	"fmt"
 	"time"
 )
 
 // selfcheck: sanity of the solver drivers and of the term layer (constant folding vs. solver).
-func cmdSelfcheck() int {
+// the symbolic regexp matcher on constant bytes must agree with package regexp
+func selfcheckRegexp() int {
 	bad := 0
+	pats := []string{"x.*", "^a", "b$", "^ab?c+$", "(?i)err", "a|bc", "\\d+", "[^a-c]x", "\\bfoo\\b", "(a*)*b", "", "^$", "x.+", "(?m)^l2$", "a{2,3}"}
+	strs := []string{"", "x", "ax", "xyz", "abc", "ac", "abcc", "ERR", "eRr!", "bc", "12", "a1", "dx", "ax", "foo", "a foo b", "foob", "aab", "b", "l1\nl2", "aa", "aaaa", "xx"}
+	for _, p := range pats {
+		re, err := regexp.Compile(p)
+		if err != nil {
+			fmt.Printf("selfcheck: pattern %q: %v\n", p, err)
+			bad++
+			continue
+		}
+		for _, s := range strs {
+			bs := make([]*Term, len(s))
+			for i := range bs {
+				bs[i] = BV(8, uint64(s[i]))
+			}
+			t, ok := symRegexpMatch(re, bs)
+			if !ok || !t.IsConst() || (t.C == 1) != re.MatchString(s) {
+				fmt.Printf("selfcheck: symbolic regexp matcher disagrees with package regexp on %q ~ %q\n", s, p)
+				bad++
+			}
+		}
+	}
+	return bad
+}
+
+func cmdSelfcheck() int {
+	bad := selfcheckRegexp()
 	for _, kind := range []string{"z3", "cvc5", "cvc5-int"} {
 		s, err := NewSolver(kind, 20*time.Second)
 		if err != nil {
